@@ -417,11 +417,15 @@ class Point(HyperbolicObject, projective.Point):
             orientation-preserving.
 
         """
-        normed = np.expand_dims(
-            utils.normalize(self.proj_data, self.minkowski),
-            axis=-2
-        )
-        isom = utils.find_isometry(self.minkowski, normed,
+        normed = utils.normalize(self.proj_data, self.minkowski)
+
+        # the isometry should not depend on the sign of the homogeneous
+        # coordinates, so always complete the future-pointing
+        # representative to a frame
+        normed = normed * np.where(normed[..., :1] < 0, -1, 1)
+
+        isom = utils.find_isometry(self.minkowski,
+                                   np.expand_dims(normed, axis=-2),
                                    force_oriented)
 
         return Isometry(isom, column_vectors=False)
@@ -442,7 +446,14 @@ class Point(HyperbolicObject, projective.Point):
             towards `other`.
 
         """
-        diff = other.proj_data - self.proj_data
+        # choose the representative of other on the same sheet of the
+        # hyperboloid as the representative of self, so the direction
+        # does not depend on the signs of the homogeneous coordinates
+        products = utils.apply_bilinear(self.proj_data, other.proj_data,
+                                        self.minkowski)
+        same_sheet = np.where(products > 0, -1, 1)[..., np.newaxis]
+
+        diff = same_sheet * other.proj_data - self.proj_data
         return TangentVector(self, diff).normalized()
 
     def get_origin(dimension, shape=(), **kwargs):
@@ -1271,6 +1282,12 @@ class TangentVector(PointPair):
 
         """
         normed = utils.normalize(self.aux_data, self.minkowski)
+
+        # (point, vector) and (-point, -vector) are the same tangent
+        # vector: use the one with a future-pointing basepoint, so the
+        # isometry does not depend on the sign of the coordinates
+        normed = normed * np.where(normed[..., :1, :1] < 0, -1, 1)
+
         isom = utils.find_isometry(self.minkowski, normed,
                                    force_oriented)
 
